@@ -887,6 +887,99 @@ def run_state_carry(ctx, collect):
         ctx.count("reused-changer subset sequences")
 
 
+def run_thermal_patterns(ctx, collect):
+    """call patterns of the thermal path through the public pieces (setAssembly, updateComponentTemp(sBy1DTempField),
+    computeThermalExpansionFactors, axiallyExpandAssembly): factors computed once, twice, or after every block's
+    temperature update must equal update-all / compute-once (performThermalAxialExpansion on a twin); the inverse
+    temperature change afterwards restores densities (and heights of blocks whose target sits on the block below)"""
+    fx = fixtures()
+    pool = [x for x in fx["assems"]]
+    with common.quiet():
+        pool += [build_assembly(k, [16.0] * (len(k) + 1)) for k in (["fuel", "holedslab", "slab"], ["customfuel", "fuel", "slab"])]
+    req, chk = collect
+    for _ in range(ctx.pick(12, 150)):
+        a0 = ctx.rng.choice(pool)
+        pattern = ctx.rng.choice(["once", "twice", "thrice", "after-each-block", "after-each-block+final"])
+        a, twin = copy.deepcopy(a0), copy.deepcopy(a0)
+        H0, top0 = a.getTotalHeight(), float(a[-1].p.ztop)
+        T0 = float(next(iter(a[0])).temperatureInC)
+        start = None
+        temps = [ctx.rng.choice([300.0, 350.0, 425.0, 500.0, 0.0]) for _ in range(2)]
+        legs = [("out", temps[0]), ("on", temps[1])]
+        chg, snapshot, iterSolid = make_changer()
+        ref, _s, _i = make_changer()
+        budget = [0, 0]
+        for leg, T in legs:
+            case = {"assembly": a0.getType(), "mode": "thermal-call-pattern", "pattern": pattern, "leg": leg, "T": T}
+            grid = np.linspace(0.0, H0, 3000)
+            temps_before = {id(c): float(c.temperatureInC) for b in a for c in b}
+            chg.pre = None
+            try:
+                with common.quiet():
+                    chg.setAssembly(a, True)
+                    ed = chg.expansionData
+                    if pattern.startswith("after-each-block"):
+                        for b in a:
+                            for c in b:
+                                ed.updateComponentTemp(c, T)
+                            ed.computeThermalExpansionFactors()
+                        if pattern.endswith("+final"):
+                            ed.computeThermalExpansionFactors()
+                    else:
+                        ed.updateComponentTempsBy1DTempField(list(grid), [T] * len(grid))
+                        for _k in range({"once": 1, "twice": 2, "thrice": 3}[pattern]):
+                            ed.computeThermalExpansionFactors()
+                    chg.axiallyExpandAssembly()
+                    ref.performThermalAxialExpansion(twin, list(grid), [T] * len(grid), setFuel=True)
+            except Exception as e:  # noqa
+                ctx.fail("expansion-raises", "a physical expansion of an assembly with a dummy block succeeds", case,
+                         observed=repr(e)[:300])
+                break
+            pre, post, tw = chg.pre, snapshot(a), snapshot(twin)
+            if start is None:
+                start = post        # the isothermal state at temps[0]: the closed cycle returns to it
+            oracle_step(ctx, case, a, pre, post, masses(pre), H0, top0, "percomp", budget)
+            for ib, b in enumerate(a[:-1]):
+                for ic, c in enumerate(iterSolid(b)):
+                    exp = expected_factor(c, temps_before[id(c)], T)
+                    got = pre[ib]["comps"][ic]["g"]
+                    if not fclose(got, exp, 1e-12):
+                        ctx.fail("thermal-factors-idempotent", "computeThermalExpansionFactors gives the material's expansion "
+                                 "between the previous and the new temperature however often it is called",
+                                 dict(case, block=ib, comp=c.name, t_from=temps_before[id(c)]), observed=got, expected=exp)
+            for ib, (x, y) in enumerate(zip(post, tw)):
+                same = fclose(x["h"], y["h"], 1e-13) and fclose(x["zt"], y["zt"], 1e-13) and all(
+                    fclose(cx["nd"], cy["nd"], 1e-13) for cx, cy in zip(x["comps"], y["comps"]))
+                if not same:
+                    ctx.fail("thermal-call-pattern-equals-single-call", "update-all / compute-once and the same steps with repeated "
+                             "factor computation give the same assembly", dict(case, block=ib), observed=[x["h"], x["zt"]],
+                             expected=[y["h"], y["zt"]])
+            safe_request(ctx, case, pre, req, chk, (case, pre, post, [float(x) for x in a.spatialGrid._bounds[2]]))
+            ctx.count(f"thermal call pattern {pattern}")
+            ctx.case(("thermal-pattern", a0.getType(), pattern, leg, T, _), nontrivial=True)
+        else:
+            # back to the first temperature with the same pattern-free single call: densities (and aligned heights) return
+            case = {"assembly": a0.getType(), "mode": "thermal-call-pattern", "pattern": pattern, "leg": "back", "T": temps[0]}
+            try:
+                with common.quiet():
+                    chg.performThermalAxialExpansion(a, list(np.linspace(0.0, H0, 3000)), [temps[0]] * 3000, setFuel=True)
+            except Exception as e:  # noqa
+                ctx.fail("expansion-raises", "a physical expansion of an assembly with a dummy block succeeds", case, observed=repr(e)[:300])
+                continue
+            end = snapshot(a)
+            al = chg.pre
+            for ib in range(len(start) - 1):
+                for cs, ce in zip(start[ib]["comps"], end[ib]["comps"]):
+                    if not fclose(cs["nd"] * cs["area"], ce["nd"] * ce["area"], 1e-9):
+                        ctx.fail("closed-cycle-restores-densities", "a closed temperature cycle restores the linear densities",
+                                 dict(case, block=ib, comp=cs["name"]), observed=ce["nd"] * ce["area"], expected=cs["nd"] * cs["area"])
+                t = al[ib]["targets"]
+                if t and all(aligned(al, jb, al[jb]["targets"][0]) for jb in range(ib + 1) if al[jb]["targets"]):
+                    if not fclose(start[ib]["h"], end[ib]["h"], 1e-9):
+                        ctx.fail("closed-cycle-restores-heights", "a closed temperature cycle restores block heights",
+                                 dict(case, block=ib), observed=end[ib]["h"], expected=start[ib]["h"])
+
+
 def flag_int(f):
     return int.from_bytes(f.to_bytes(), "big")
 
@@ -1064,6 +1157,7 @@ def run(ctx):
     run_link_pairs(ctx)
     run_built(ctx, collect)
     run_state_carry(ctx, collect)
+    run_thermal_patterns(ctx, collect)
     run_rejects(ctx, collect)
     run_zero_celsius(ctx, collect)
     run_small_steps(ctx, collect)
